@@ -85,6 +85,13 @@ theorem jose_prechecks_never_panic (e : Jose.Enc) (keyLen ivLen ctLen tagLen : N
     Jose.precheck e keyLen ivLen ctLen tagLen ≠ .panic :=
   C16.precheck_never_panics e keyLen ivLen ctLen tagLen hk
 
+/-- … and behind a VALID tag: the CBC-HMAC `Open` of the library (tag check, block-length check, CBC, PKCS#7
+unpadding) returns for every key, IV, ciphertext — the empty one included (defect F28, repaired) — tag and AAD,
+whatever the block cipher and the MAC are. -/
+theorem jose_cbc_open_never_panics (P : Jose.CbcPrims) (ek mk iv ct tag aad : Bytes) :
+    Jose.cbcOpen P ek mk iv ct tag aad ≠ .panic :=
+  C16.cbc_open_never_panics P ek mk iv ct tag aad
+
 /-! ### (b) cost: AMF0 containers -/
 
 /-- The decoder the source has NOW advances past a decoded child in constant time (fact regenerated
